@@ -856,6 +856,11 @@ def run_unit(uid, tier='quick', repo=REPO, keep=None, seed=0):
         if 'CANARY' not in gen:
             notes.append('template has no canary')
         scaffolding_lost = sorted(set(u.lost_hints) | dropped_compile)
+        if os.environ.get('VX_HINT_POLICY', 'strict') == 'strict':
+            # a proof step that still anchors and type-checks but no longer VERIFIES was dropped as well: the proof that
+            # remains is not the accepted one either (a rewrite of the arm the step talks about does this), so a clause
+            # that fails afterwards is not judged on that basis alone
+            scaffolding_lost = sorted(set(scaffolding_lost) | set(dropped))
         r['scaffolding_lost'] = scaffolding_lost
         if an['failed'] or an['panic'] or an['termination']:
             r['status'] = 'violation'
